@@ -1,6 +1,6 @@
 SPECIFICATION GenLifecycleSpec
 CONSTANTS
-  DedupCap = 2
+  DedupCap = 6
   Defect_NoSessionStarted = FALSE
   Defect_CloseNoTerminal = FALSE
   Defect_SyncSpin = FALSE
